@@ -4,7 +4,7 @@
 //   run <id> <nsolve> <nsys> [<overlap: keep the previous object alive during this run>]
 //   solve <mode> <reset: 0 no, 1 Reset(), 2 Finalize()+Init()+Reset()> <mxsteps> <dt> <ny0> <y0...>            (all variants)
 //         cvode : <nout> (<flag> <frac>)* <nre> (<k> <flag>)* <setup_idx> <setup_flag> <tail_on> <tail_flag> <tail_frac>
-//         odeint: <nsteps> <shape> <throw_at> <throw_kind>
+//         odeint: <nsteps> <shape> <throw_at> <throw_kind> <nsteps2> <throw_at2>
 //
 // Numbers that must be exact (dt, y0, frac) are C hex floats.
 #include <math.h>
@@ -223,6 +223,10 @@ int main(int argc, char **argv) {
         sc.throw_at = atol(tok);
         TOK();
         sc.throw_kind = atoi(tok);
+        TOK();
+        sc.nsteps2 = atol(tok);
+        TOK();
+        sc.throw_at2 = atol(tok);
 #else
         g_mock.reset_for_solve();
         g_mock.trace_on = trace_on;
